@@ -242,7 +242,7 @@ class BlockTr:
         """current symbolic value of a variable (its entry value is a leaf)"""
         if name in env:
             return env[name]
-        if name.startswith("eff_"):
+        if name.startswith("eff_") or name.startswith("effseq_") or name in ("brk", "cont"):
             return "false"
         if name == "ret":
             return self.item.get("no_return", "true")
@@ -268,7 +268,7 @@ class BlockTr:
 
     @staticmethod
     def may_return(stmts):
-        return any(isinstance(n, ast.Return) for s in stmts for n in ast.walk(s))
+        return any(isinstance(n, (ast.Return, ast.Break, ast.Continue)) for s in stmts for n in ast.walk(s))
 
     def assign(self, env, target, term):
         if isinstance(target, (ast.Name, ast.Attribute, ast.Subscript)):
@@ -319,6 +319,10 @@ class BlockTr:
             return self.run(list(s.body) + rest, env)
         if isinstance(s, ast.Return):
             env["ret"] = self.expr(env, s.value) if s.value is not None else "()"
+            return env
+        if isinstance(s, (ast.Break, ast.Continue)):
+            # leaving the loop body early: the rest of the body is not executed on this path
+            env["brk" if isinstance(s, ast.Break) else "cont"] = "true"
             return env
         if isinstance(s, ast.If):
             saved_leaves = list(self.tr.leaves)
@@ -373,6 +377,10 @@ class BlockTr:
             fn = re.sub(r"\s+", "", ast.unparse(s.value.func))
             for k, v in self.effects.items():
                 if fn == k or fn.endswith("." + k):
+                    # effect v is reached on this path; `effseq_v_u` records whether effect u had been reached before
+                    for u in dict.fromkeys(self.effects.values()):
+                        if u != v and ("effseq_%s_%s" % (v, u)) not in env:
+                            env["effseq_%s_%s" % (v, u)] = self.cur(env, "eff_" + u)
                     env["eff_" + v] = "true"
                     return self.run(rest, env)
             raise Unsupported("statement with an unlisted side effect: " + ast.unparse(s)[:80])
@@ -428,17 +436,22 @@ def extract_block(item):
         if o["var"] not in env and not o.get("optional"):
             raise Unsupported(f"{item['name']}: block does not assign {o['var']}")
         outs.append(bt.cur(env, o["var"]))
-    extra = sorted(k for k in env if k not in {o["var"] for o in item["outputs"]} and k not in item.get("locals", []))
+    extra = sorted(k for k in env if k not in {o["var"] for o in item["outputs"]} and k not in item.get("locals", [])
+                   and not k.startswith("effseq_"))
     if extra and item.get("strict", True):
         # a NEW assigned variable = the code was restructured (or grew a new piece of state)
         raise Unsupported(f"{item['name']}: block assigns unexpected variables {extra}")
     # leaves that occur in the output terms (a local of one branch merged with "unassigned" never reaches an output)
     occurs = lambda l: any(re.search(r"(?<![\w«.])" + re.escape(l) + r"(?![\w»])", o) for o in outs)
     leaves = sorted(l for l in bt.tr.leaves if occurs(l))
-    if "leaves" in item and sorted(item["leaves"]) != leaves:
-        if not (item.get("leaves_mode") == "subset" and set(leaves) <= set(item["leaves"])):
-            raise Unsupported(f"{item['name']}: leaves {leaves} differ from expected {sorted(item['leaves'])}")
-        leaves = sorted(item["leaves"])
+    # synthetic `condK` leaves (an untranslatable test on which an OUTPUT now depends) are not a restructuring: they stay
+    # parameters of the definition, so the tie lemma no longer applies -> broken obligation (the block's control
+    # dependence changed); a leaf that DISAPPEARED is left to the tie lemma as well; only a new named leaf = restructured
+    named = [l for l in leaves if l not in bt.bool_leaves]
+    if "leaves" in item and sorted(item["leaves"]) != named:
+        if not set(named) <= set(item["leaves"]):
+            raise Unsupported(f"{item['name']}: leaves {named} differ from expected {sorted(item['leaves'])}")
+        leaves = sorted(set(item["leaves"]) | set(leaves))
     dty = item.get("type")
     lt = dict({b: "Bool" for b in bt.bool_leaves}, **item.get("leaf_types", {}))
     binders = " ".join(f"({quote(l)} : {lt.get(l, dty or 'α')})" for l in leaves)
